@@ -35,8 +35,9 @@ CHECKS = {
             "filterOut, resolve, check_overlap): file equalities between modes, joined-record justification and faithfulness, as structural facts plus validity queries."),
     "C16": ("5/C16", "Real vectorisePositions (<= 3/4 labels, <= 8 bins, symbolic start/end), blur (<= 6/8 symbolic bits, radius 0..4), toRelativeGenomicPositions (unbounded "
             "symbolic bin/start), PeaksSelector.selectPeaks and CorrelationResult.createPeaks (symbolic scores/heights in object arrays)."),
-    "C17": ("5/C17", "TRIM HALF ONLY: real OpticalMap.trim on maps of <= 5/8 symbolic labels (first label to 0, count and distances kept, length, idempotence). The "
-            "CMAP reader half (pandas) is not decided and is listed as outside the claim."),
+    "C17": ("5/C17", "TRIM HALF ONLY is solver-decided: real OpticalMap.trim on maps of <= 5/8 symbolic labels (first label to 0, count and distances kept, length, idempotence). The "
+            "CMAP reader half (pandas) cannot hold symbolic values: it is only exercised on one solver-chosen witness per path (shuffled rows, extra column, id filters) as a "
+            "sampled public-API confirmation and is otherwise outside the claim."),
     "C20": ("5/C20", "Real cluster_indels on <= 3/4 sorted calls (symbolic chromosome, interval, Length, blur), real write_indel_file with the text parsed back, real "
             "look_for_indels_in_breakage of both indel finders with symbolic label coordinates."),
     "C09": ("5/C09", "REDUCTION, not schedules: (1) AlignerEngine.iteration (the only state a call leaves in a worker) is an arbitrary symbolic integer: no branch and no "
